@@ -132,3 +132,38 @@ Proof.
   rewrite (normF_meq m p _ _ E2). apply HB.
 Qed.
 End NormLaws.
+
+(* the classical comparisons, for the largest singular value itself *)
+Section Compare.
+Variables (m n r : nat) (U V : qmat RR) (s : nat -> R).
+Hypothesis Hr : (0 < r)%nat.
+Hypothesis HU : meq r r (qmm m (qherm U) U) qmid.
+Hypothesis HV : meq r r (qmm n (qherm V) V) qmid.
+Hypothesis Hs0 : forall k, (k < r)%nat -> 0 <= s k.
+Hypothesis Htop : forall k, (k < r)%nat -> s k <= s 0%nat.
+Let A := @usv RR r U s V.
+
+Lemma frob2_col p (M : qmat RR) : frob2 p 1 M = vnorm2 p (fun i => M i 0%nat).
+Proof. unfold frob2, vnorm2. apply (sumR_ext RR). intros i Hi. cbn [sumR]. rr. unfold N. ring. Qed.
+
+(* sigma_max^2 <= ||A||_1 ||A||_inf *)
+Theorem top_value_sq_le_norm1_norminf : s 0%nat * s 0%nat <= norminf m n A * norm1 m n A.
+Proof.
+  pose proof (schur_test m n A (fun i => V i 0%nat)) as T.
+  assert (E1 : vnorm2 m (matvec n A (fun i => V i 0%nat)) = s 0%nat * s 0%nat).
+  { rewrite <- (Av0_value m n r U V s Hr HU HV). rewrite frob2_col. reflexivity. }
+  assert (E2 : vnorm2 n (fun i => V i 0%nat) = 1).
+  { rewrite <- (v0_unit n r V Hr HV). rewrite frob2_col. reflexivity. }
+  rewrite E1, E2 in T. lra.
+Qed.
+(* sigma_max <= ||A||_F  and  ||A||_F^2 <= r sigma_max^2 *)
+Theorem top_value_le_frobenius : s 0%nat <= normF m n A.
+Proof. apply (largest_value_is_least_bound m n r U V s Hr HU HV Hs0). apply op_bound_frobenius. Qed.
+Theorem frobenius_sq_le_r_top_value_sq : frob2 m n A <= @sumR RR r (fun _ => 1) * (s 0%nat * s 0%nat).
+Proof.
+  unfold A. rewrite (frob2_usv RR m n r U V s HU HV).
+  pose proof (sumR_mul_r RR r (s 0%nat * s 0%nat) (fun _ => 1)) as X. rr in X. rewrite <- X.
+  apply sumRR_le. intros k Hk. specialize (Hs0 k Hk). specialize (Htop k Hk). rr.
+  assert (s k * s k <= s 0%nat * s 0%nat) by (apply Rmult_le_compat; lra). lra.
+Qed.
+End Compare.
